@@ -2,9 +2,10 @@
    - query_execute.Allocator (__init__, allocate, create_store),
    - the allocate / initialize / update / finalize protocol of the aggregator classes of query_env.py
      (Count, CountArg, SumInt, SumDecimal, First, Last, Min, Max, resolved through the MRO of the live classes),
-   - the scan part of the aggregated branch of query_execute.execute_select
-     (`context = None; aggregates = collections.defaultdict(create); for context in query.table: ...`)
-   compute, for every store / row / table, what Model/Exec.v's agg_init, agg_update, store_update and scan_agg compute.
+   - the four parts of the aggregated branch of query_execute.execute_select (split of the targets, allocate loop, scan
+     loop with `aggregates = collections.defaultdict(create)`, output loop with HAVING) and their concatenation
+   compute, for every store / row / table, what Model/Exec.v's agg_init, agg_update, store_update, scan_agg, out_values,
+   having_ok, finalize and (on the aggregate path) exec_rows compute.
 
    Objects are encoded as in Model/PrimsAgg.v; compiled expressions are opaque callables of the context and of the
    state of the aggregate nodes (rule A3 of harness/vf/src_agg.py), as children are in Proofs/SrcEval.v. *)
@@ -435,7 +436,10 @@ Definition create_block : list stmt :=
 Definition frame (keep : list string) (loc loc' : env) : Prop :=
   forall y, In y keep -> lookup y loc' = lookup y loc.
 
-Definition scan_vars : list string := ["query"; "c_where"; "c_nonaggregate_exprs"; "allocator"; "context"; "key"].
+Definition scan_vars : list string :=
+  ["query"; "c_where"; "c_nonaggregate_exprs"; "allocator"; "context"; "key"; "c_target_exprs"; "group_indexes"; "rows"].
+Definition row_keep : list string :=
+  ["query"; "c_where"; "c_nonaggregate_exprs"; "allocator"; "context"; "c_target_exprs"; "group_indexes"; "rows"].
 
 Lemma create_block_src : forall (s : store) key vals loc flds,
   length vals = n ->
@@ -536,7 +540,7 @@ Lemma row_stmts_src : forall (s : store) vals gks r loc flds,
     lookup "c_aggregate_exprs" loc' = Some (PList (mk_nodes vals')) /\
     lookup "aggregates" loc' = Some (dict_pv (store_update q r (group_key q g r) s)) /\
     good_store (store_update q r (group_key q g r) s) /\
-    frame ["query"; "c_where"; "c_nonaggregate_exprs"; "allocator"; "context"] loc loc'.
+    frame row_keep loc loc'.
 Proof.
   intros s vals gks r loc flds Hr Hv Hgs Hks Hal Hn Hag Hctx Hne.
   set (key := group_key q g r).
@@ -634,6 +638,8 @@ Lemma agg_scan_shape :
                      SFor "context" (XAttr (XName "query") "table") scan_body].
 Proof. reflexivity. Qed.
 
+Definition pass_vars : list string := ["query"; "c_target_exprs"; "group_indexes"; "rows"].
+
 Lemma scan_loop : forall (cw : pv) (gks : list nat) (rows : list row), incl rows table ->
   where_ok cw -> keys_ok gks ->
   forall (s : store) vals c0 loc flds,
@@ -648,10 +654,11 @@ Lemma scan_loop : forall (cw : pv) (gks : list nat) (rows : list row), incl rows
     length vals' = n /\
     lookup "c_aggregate_exprs" loc' = Some (PList (mk_nodes vals')) /\
     lookup "aggregates" loc' = Some (dict_pv (scan_agg q g s rows)) /\
-    lookup "context" loc' = Some (last (map ctx_of rows) c0).
+    lookup "context" loc' = Some (last (map ctx_of rows) c0) /\
+    frame pass_vars loc loc'.
 Proof.
   intros cw gks rows. induction rows as [|r t IH]; intros Hin Hw Hks s vals c0 loc flds Hv Hgs Hcw Hal Hne Hn Hag Hc.
-  - exists loc, vals. cbn [map for_loop scan_agg last]. auto.
+  - exists loc, vals. cbn [map for_loop scan_agg last]. repeat split; auto.
   - assert (Hr : In r table) by (apply Hin; left; reflexivity).
     assert (Hin' : incl t table) by (intros x Hx; apply Hin; right; exact Hx).
     cbn [map for_loop scan_agg]. cbn [write locals fields].
@@ -681,14 +688,54 @@ Proof.
     + destruct (row_stmts_src s vals gks r loc1 flds Hr Hv Hgs Hks Hal1 Hn1 Hag1 Hc1 Hne1)
         as [loc2 [vals2 [E [Hv2 [Hn2 [Hag2 [Hgs2 F2]]]]]]].
       rewrite E. cbn [bind exec_block].
-      apply (IH Hin' Hw Hks _ vals2 (ctx_of r) loc2 flds Hv2 Hgs2).
+      destruct (IH Hin' Hw Hks _ vals2 (ctx_of r) loc2 flds Hv2 Hgs2) as [loc' [vals' [E' [A1 [A2 [A3 [A4 A5]]]]]]].
       * rewrite (F2 "c_where") by (cbn; tauto). exact Hcw1.
       * rewrite (F2 "allocator") by (cbn; tauto). exact Hal1.
       * rewrite (F2 "c_nonaggregate_exprs") by (cbn; tauto). exact Hne1.
       * exact Hn2.
       * exact Hag2.
       * rewrite (F2 "context") by (cbn; tauto). exact Hc1.
-    + cbn [exec_block bind]. apply (IH Hin' Hw Hks s vals (ctx_of r) loc1 flds); assumption.
+      * exists loc', vals'. repeat split; auto.
+        intros y Hy. rewrite (A5 y Hy). cbn in Hy.
+        repeat (destruct Hy as [<-|Hy]; [rewrite F2 by (cbn; tauto); unfold loc1; lk; reflexivity|]). destruct Hy.
+    + cbn [exec_block bind].
+      destruct (IH Hin' Hw Hks s vals (ctx_of r) loc1 flds) as [loc' [vals' [E' [A1 [A2 [A3 [A4 A5]]]]]]]; try assumption.
+      exists loc', vals'. repeat split; auto.
+      intros y Hy. rewrite (A5 y Hy). cbn in Hy.
+      repeat (destruct Hy as [<-|Hy]; [unfold loc1; lk; reflexivity|]). destruct Hy.
+Qed.
+
+(* the scan part from ANY state that binds what it reads (used by the composition of the branch) *)
+Lemma agg_scan_gen : forall (cw qobj : pv) (gks : list nat) vals loc flds,
+  qobj <> PSelf -> prim "attr:table" [qobj] = Ok (PList (map ctx_of table)) ->
+  where_ok cw -> keys_ok gks -> length vals = n ->
+  lookup "query" loc = Some qobj -> lookup "c_where" loc = Some cw ->
+  lookup "c_nonaggregate_exprs" loc = Some (PList (map PRef gks)) -> lookup "allocator" loc = Some allocv ->
+  lookup "c_aggregate_exprs" loc = Some (PList (mk_nodes vals)) ->
+  exists loc' vals',
+    exec_block call_ref prim {| locals := loc; fields := flds |} (f_body agg_scan) =
+      Ok (Next {| locals := loc'; fields := flds |}) /\
+    lookup "aggregates" loc' = Some (dict_pv (scan_agg q g [] table)) /\
+    lookup "context" loc' = Some (last (map ctx_of table) PNone) /\
+    length vals' = n /\ lookup "c_aggregate_exprs" loc' = Some (PList (mk_nodes vals')) /\
+    frame pass_vars loc loc'.
+Proof.
+  intros cw qobj gks vals loc flds Hq Htab Hw Hks Hv Hqo Hcw Hne Hal Hn. rewrite agg_scan_shape.
+  rewrite exec_block_cons. st. rewrite exec_block_cons. st. rewrite Hlo by (cbn; tauto).
+  cbn [prims0 String.eqb Ascii.eqb Bool.eqb]. st.
+  rewrite exec_block_cons.
+  match goal with |- context [PyMini.exec call_ref prim ?s0 (SFor _ _ _)] => set (st0 := s0) end.
+  assert (Hqo0 : lookup "query" (locals st0) = Some qobj) by (unfold st0; cbn [locals]; lk; exact Hqo).
+  rewrite (exec_for call_ref prim "context" _ _ st0 st0 (map ctx_of table)).
+  2:{ rewrite (eval_attr call_ref prim (XName "query") "table" st0 st0 qobj
+                 (eval_name call_ref prim st0 "query" qobj Hqo0) Hq). cbn [String.append]. rewrite Htab. reflexivity. }
+  destruct (scan_loop cw gks table (incl_refl _) Hw Hks [] vals PNone (locals st0) flds Hv (Forall_nil _))
+    as [loc' [vals' [E [Hv' [Hn' [Hag' [Hc' F]]]]]]];
+    try (unfold st0; cbn [locals]; lk; assumption); try (unfold st0; cbn [locals]; lk; reflexivity).
+  unfold st0 in *. cbn [locals] in E. rewrite E. cbn [bind exec_block].
+  exists loc', vals'. split; [reflexivity|]. repeat split; auto.
+  intros y Hy. rewrite (F y Hy). cbn [locals]. cbn in Hy.
+  repeat (destruct Hy as [<-|Hy]; [lk; reflexivity|]). destruct Hy.
 Qed.
 
 (* the translated scan part: `context = None; aggregates = defaultdict(create); for context in query.table: ...`
@@ -714,7 +761,7 @@ Proof.
   2:{ rewrite (eval_attr call_ref prim (XName "query") "table" st0 st0 qobj
                  (eval_name call_ref prim st0 "query" qobj eq_refl) Hq). cbn [String.append]. rewrite Htab. reflexivity. }
   destruct (scan_loop cw gks table (incl_refl _) Hw Hks [] vals PNone (locals st0) [] Hv (Forall_nil _)
-              eq_refl eq_refl eq_refl eq_refl eq_refl eq_refl) as [loc' [vals' [E [Hv' [Hn' [Hag' Hc']]]]]].
+              eq_refl eq_refl eq_refl eq_refl eq_refl eq_refl) as [loc' [vals' [E [Hv' [Hn' [Hag' [Hc' _]]]]]]].
   unfold st0 in *. cbn [locals] in E. rewrite E. cbn [bind exec_block].
   eexists. exists vals'. split; [reflexivity|]. cbn [locals]. auto.
 Qed.
@@ -955,28 +1002,995 @@ Proof.
 Qed.
 End Link.
 
-(* ================================================================== not yet tied (the terms ARE regenerated on every run)
-   Full statements of what is missing, over the same encodings (Model/PrimsAgg.v) and hypotheses as agg_scan_linked:
+Local Arguments pop_at : simpl never.
 
-   (2) agg_split.  For tks the opaque callables of q_targets q, with
-         call_ref k_gca [PRef tk_i] = PTuple [cols_i; PList nodes_i]   (compiler.get_columns_and_aggregates, opaque)
-       exec_block .. {c_target_exprs := PList (map PRef tks); group_indexes := PList (map idx g)} (f_body agg_split)
-       ends with  c_nonaggregate_exprs = PList (map PRef [tk_i | i in g])   (the gks of keys_ok: group_key q g r is
-       exactly the values of these targets in target order) and  c_aggregate_exprs = PList (concat [nodes_i | i not in g])
-       (the ds of node_ok, in the order of q_aggs q).
+(* ================================================================== part 4: the output loop *)
+Definition idx (i : nat) : pv := PInt (Z.of_nat i).
 
-   (2') agg_alloc.  From c_aggregate_exprs = the nodes with handle None, the translated allocate loop (node_loop with
-       M = "allocate", thread = allocator; alloc_allocate_src per step) ends with allocator = alloc_pv (PInt n) and
-       c_aggregate_exprs = mk_nodes_from 0 ds vals: handle = position - the premise of agg_scan_linked.
+Lemma val_eq_int a b : val_eq (VInt a) (VInt b) = (a =? b).
+Proof.
+  unfold val_eq, StableSort.eqv. rewrite !val_le_int.
+  destruct (a =? b) eqn:E; [apply Z.eqb_eq in E; subst; rewrite Z.leb_refl; reflexivity|].
+  apply Z.eqb_neq in E. destruct (a <=? b) eqn:E1; destruct (b <=? a) eqn:E2; try reflexivity.
+  apply Z.leb_le in E1, E2. lia.
+Qed.
 
-   (4) agg_output.  For every store s whose keys have one value per grouped target (true of scan_agg q g [] table),
-       with context = ctx_of ctx (ctx = last table [], the value agg_scan_linked leaves in `context`), targets
-         forall slots, call_ref tk_i [ctx_of ctx; PList (mk_nodes_from 0 ds (map PV slots))] = PV (eval ctx slots e_i), not an error
-       (rule A3: after the finalize loop - node_loop with M = "finalize", finalize_call_src per step - the value parked on
-       node h is slots[h], which is what Eval's clause EAgg h reads), and having_index < length (q_targets q):
-       exec_block .. {aggregates := dict_pv s; rows := PList (map rowl_pv acc); ..} (f_body agg_output)  ends with
-         rows = PList (map rowl_pv (acc ++ Exec.finalize q g ctx s))
-       (`next(key_iter)` = the key cells in order: Exec.out_values; `if not values[having_index]: continue` =
-       Exec.having_ok, desugared by rule A6).
-   Composition: agg_branch = agg_split ++ agg_alloc ++ agg_scan ++ agg_output (checked by harness/vf/src_agg.py:
-   the parts are exactly the statements of the else-branch, in order) = Exec.exec_rows q table for q_group q = Some g. *)
+Lemma existsb_idx i g : existsb (pv_eqb (idx i)) (map idx g) = existsb (Nat.eqb i) g.
+Proof.
+  induction g as [|j g IH]; [reflexivity|]. cbn [map existsb]. rewrite IH. f_equal.
+  unfold idx, PInt. rewrite pv_eqb_value, val_eq_int.
+  destruct (Nat.eqb_spec i j); [subst; apply Z.eqb_refl|]. apply Z.eqb_neq. lia.
+Qed.
+
+Lemma pop_at_0 (x : pv) l : pop_at (x :: l) 0 = Ok (x, l).
+Proof.
+  unfold pop_at. cbv zeta. change (0 <? 0) with false. cbv iota.
+  replace (Z.of_nat (length (x :: l)) <=? 0) with false by (symmetry; apply Z.leb_gt; cbn [length]; lia).
+  reflexivity.
+Qed.
+
+Definition frame_out (modified : list string) (loc loc' : env) : Prop :=
+  forall y, ~ In y modified -> lookup y loc' = lookup y loc.
+
+Section Output.
+Variable call_ref : nat -> list pv -> pv.
+Variable prim : string -> list pv -> res pv.
+Variable q : query.
+Variable g : list nat.
+Variable ctx : row.                      (* the last scanned row *)
+Variable cv : pv.                        (* its context object: what the scan loop left in `context` *)
+Variable mk_nodes : list pv -> list pv.
+Notation mev := Verif.Model.Eval.eval.
+Notation n := (length (q_aggs q)).
+
+Hypothesis Hlo : forall name args, In name lo_names -> prim name args = prims0 name args.
+Hypothesis Hfin : forall vals sl, length vals = n -> length sl = n ->
+  node_fold (fun nd th => method_call prim "finalize" nd [th]) (mk_nodes vals) (slots_pv sl) =
+  Ok (mk_nodes (map PV sl), slots_pv sl).
+
+(* a non-grouped target: an opaque callable of the context and of the state of the aggregate nodes (rule A3); with the
+   finalised value slots[h] parked on node h it evaluates to Eval.eval ctx slots e (EAgg h = nth h slots) *)
+Definition target_on (k : nat) (e : enode) : Prop :=
+  forall sl, length sl = n -> is_err (mev ctx sl e) = false ->
+    call_ref k [cv; PList (mk_nodes (map PV sl))] = PV (mev ctx sl e).
+Definition no_err (vals : list value) : Prop := Forall (fun v => is_err v = false) vals.
+
+Fixpoint targets_ok_from (i : nat) (tks : list nat) (ts : list enode) : Prop :=
+  match tks, ts with
+  | [], [] => True
+  | k :: tks', e :: ts' => (existsb (Nat.eqb i) g = false -> target_on k e) /\ targets_ok_from (S i) tks' ts'
+  | _, _ => False
+  end.
+
+Fixpoint gcount (i : nat) (ts : list enode) : nat :=
+  match ts with
+  | [] => 0
+  | _ :: t => ((if existsb (Nat.eqb i) g then 1 else 0) + gcount (S i) t)%nat
+  end.
+
+Lemma do_call_ok k args v : call_ref k args = PV v -> is_err v = false -> do_call call_ref (PRef k) args = Ok (PV v).
+Proof. intros H E. cbn [do_call]. rewrite H. destruct v; try reflexivity; discriminate. Qed.
+
+Lemma eval_compare_const a op c s s1 av :
+  PyMini.eval call_ref prim s a = Ok (s1, av) ->
+  PyMini.eval call_ref prim s (XCompare a [(op, XConst c)]) =
+  bind (compare1 op av c) (fun r => if r then Ok (s1, PBool true) else Ok (s1, PBool false)).
+Proof. intros H. cbn [PyMini.eval]. rewrite H. reflexivity. Qed.
+
+Lemma eval_not a s s1 v :
+  PyMini.eval call_ref prim s a = Ok (s1, v) ->
+  PyMini.eval call_ref prim s (XNot a) = bind (pv_truthy v) (fun b => Ok (s1, PBool (negb b))).
+Proof. intros H. cbn [PyMini.eval]. rewrite H. reflexivity. Qed.
+
+Definition vbody : list stmt :=
+  [SIf (XCompare (XName "index") [(CIn, XName "group_indexes")])
+     [SAssign (TName "value") (XMethod (TName "key_iter") "pop" [XConst (PInt 0)])]
+     [SAssign (TName "value") (XCall (XName "c_expr") [XName "context"; XName "c_aggregate_exprs"] None)];
+   SExpr (XMethod (TName "values") "append" [XName "value"])].
+
+Definition vmod : list string := ["index"; "c_expr"; "value"; "key_iter"; "values"].
+
+Lemma values_loop : forall ts tks i krest vacc loc flds sl,
+  targets_ok_from i tks ts -> length sl = n -> (gcount i ts <= length krest)%nat ->
+  lookup "key_iter" loc = Some (PList (map PV krest)) -> lookup "values" loc = Some (PList (map PV vacc)) ->
+  lookup "group_indexes" loc = Some (PList (map idx g)) -> lookup "context" loc = Some cv ->
+  lookup "c_aggregate_exprs" loc = Some (PList (mk_nodes (map PV sl))) ->
+  no_err (out_values g ctx sl i ts krest) ->
+  exists loc',
+    for_unpack_loop call_ref prim vbody ["index"; "c_expr"] {| locals := loc; fields := flds |}
+      (enumerate_from (Z.of_nat i) (map PRef tks)) = Ok (Next {| locals := loc'; fields := flds |}) /\
+    lookup "values" loc' = Some (PList (map PV (vacc ++ out_values g ctx sl i ts krest))) /\
+    frame_out vmod loc loc'.
+Proof.
+  induction ts as [|e ts IH]; intros tks i krest vacc loc flds sl Hts Hsl Hk Hki Hva Hgi Hc Hn Hne.
+  - destruct tks; [|destruct Hts]. exists loc. cbn [map enumerate_from for_unpack_loop out_values].
+    rewrite app_nil_r. split; [reflexivity|]. split; [exact Hva|]. intros y _. reflexivity.
+  - destruct tks as [|k tks]; [destruct Hts|]. destruct Hts as [Hk1 Hts].
+    cbn [map enumerate_from for_unpack_loop unpack_names write locals fields bind].
+    set (loc1 := update "c_expr" (PRef k) (update "index" (PInt (Z.of_nat i)) loc)).
+    assert (Hki1 : lookup "key_iter" loc1 = Some (PList (map PV krest))) by (unfold loc1; lk; exact Hki).
+    assert (Hva1 : lookup "values" loc1 = Some (PList (map PV vacc))) by (unfold loc1; lk; exact Hva).
+    assert (Hgi1 : lookup "group_indexes" loc1 = Some (PList (map idx g))) by (unfold loc1; lk; exact Hgi).
+    assert (Hc1 : lookup "context" loc1 = Some cv) by (unfold loc1; lk; exact Hc).
+    assert (Hn1 : lookup "c_aggregate_exprs" loc1 = Some (PList (mk_nodes (map PV sl)))) by (unfold loc1; lk; exact Hn).
+    assert (Hix : lookup "index" loc1 = Some (idx i)) by (unfold loc1; lk; reflexivity).
+    assert (Hce : lookup "c_expr" loc1 = Some (PRef k)) by (unfold loc1; lk; reflexivity).
+    assert (Ec : PyMini.eval call_ref prim {| locals := loc1; fields := flds |}
+                   (XCompare (XName "index") [(CIn, XName "group_indexes")]) =
+                 Ok ({| locals := loc1; fields := flds |}, PBool (existsb (Nat.eqb i) g))).
+    { st. rewrite Hix. st. rewrite Hgi1. st. cbn [compare1]. rewrite existsb_idx. cbn [bind].
+      destruct (existsb (Nat.eqb i) g); reflexivity. }
+    unfold vbody at 1. rewrite exec_block_cons.
+    rewrite (exec_if call_ref prim _ _ _ _ _ _ _ Ec eq_refl).
+    cbn [out_values gcount] in *.
+    replace (Z.of_nat i + 1) with (Z.of_nat (S i)) by lia.
+    destruct (existsb (Nat.eqb i) g) eqn:Eg.
+    + destruct krest as [|kv krest]; [cbn in Hk; lia|].
+      rewrite exec_block_cons. cbn [truthy]. st. rewrite Hki1. st. cbn [map method_call String.eqb Ascii.eqb Bool.eqb PInt].
+      rewrite pop_at_0. st. cbn [exec_block bind]. st. rewrite Hva1. st.
+      cbn [method_call String.eqb Ascii.eqb Bool.eqb bind write locals fields exec_block].
+      match goal with |- context [for_unpack_loop _ _ _ _ {| locals := ?l; fields := _ |} _] => set (loc2 := l) end.
+      destruct (IH tks (S i) krest (vacc ++ [kv])%list loc2 flds sl Hts Hsl) as [loc' [E [Hv' F]]].
+      * cbn [length] in Hk. lia.
+      * unfold loc2. lk. reflexivity.
+      * unfold loc2. lk. rewrite map_app. reflexivity.
+      * unfold loc2. lk. exact Hgi1.
+      * unfold loc2. lk. exact Hc1.
+      * unfold loc2. lk. exact Hn1.
+      * inversion Hne; assumption.
+      * exists loc'. split; [exact E|]. split; [rewrite Hv', <- app_assoc; reflexivity|].
+        intros y Hy. rewrite (F y Hy). unfold loc2, loc1. unfold vmod in Hy. cbn [In] in Hy.
+        rewrite !lookup_update_other by (intros ->; apply Hy; tauto). reflexivity.
+    + assert (Herr : is_err (mev ctx sl e) = false) by (inversion Hne; assumption).
+      pose proof (Hk1 eq_refl sl Hsl Herr) as Hcall.
+      cbn [truthy]. rewrite exec_block_cons. st. rewrite Hce. st. rewrite Hc1. st. rewrite Hn1. st. rewrite (do_call_ok _ _ _ Hcall Herr).
+      st. cbn [exec_block bind]. st. rewrite Hva1. st.
+      cbn [method_call String.eqb Ascii.eqb Bool.eqb bind write locals fields exec_block].
+      match goal with |- context [for_unpack_loop _ _ _ _ {| locals := ?l; fields := _ |} _] => set (loc2 := l) end.
+      destruct (IH tks (S i) krest (vacc ++ [mev ctx sl e])%list loc2 flds sl Hts Hsl) as [loc' [E [Hv' F]]].
+      * cbn in Hk. lia.
+      * unfold loc2. lk. exact Hki1.
+      * unfold loc2. lk. rewrite map_app. reflexivity.
+      * unfold loc2. lk. exact Hgi1.
+      * unfold loc2. lk. exact Hc1.
+      * unfold loc2. lk. exact Hn1.
+      * inversion Hne; assumption.
+      * exists loc'. split; [exact E|]. split; [rewrite Hv', <- app_assoc; reflexivity|].
+        intros y Hy. rewrite (F y Hy). unfold loc2, loc1. unfold vmod in Hy. cbn [In] in Hy.
+        rewrite !lookup_update_other by (intros ->; apply Hy; tauto). reflexivity.
+Qed.
+
+Lemma out_values_length sl : forall ts i key, length (out_values g ctx sl i ts key) = length ts.
+Proof.
+  induction ts as [|e ts IH]; intros i key; [reflexivity|]. cbn [out_values].
+  destruct (existsb (Nat.eqb i) g); [destruct key|]; cbn [length]; rewrite IH; reflexivity.
+Qed.
+
+Definition having_pv : pv := match q_having q with None => PNone | Some h => idx h end.
+Definition having_safe (vals : list value) : Prop :=
+  match q_having q with
+  | None => True
+  | Some h => (h < length (q_targets q))%nat /\ is_err (nth h vals VNull) = false
+  end.
+Definition having_bound : Prop :=
+  match q_having q with None => True | Some h => (h < length (q_targets q))%nat end.
+(* an entry of the store: one slot per aggregate, one key cell per grouped target, and no cell of its output row is an
+   exception value (C04: well-typed queries) *)
+Definition entry_ok (ks : list value * list value) : Prop :=
+  length (snd ks) = n /\ (gcount 0 (q_targets q) <= length (fst ks))%nat /\
+  no_err (out_values g ctx (snd ks) 0 (q_targets q) (fst ks)) /\ having_bound.
+
+Definition having_stmt : stmt :=
+  SIf (XCompare (XAttr (XName "query") "having_index") [(CIsNot, XConst PNone)])
+    [SIf (XNot (XIndex (XName "values") (XAttr (XName "query") "having_index")))
+       [SAssign (TName "$skip") (XConst (PBool true))] []] [].
+Definition append_stmt : stmt :=
+  SIf (XNot (XName "$skip")) [SExpr (XMethod (TName "rows") "append" [XName "values"])] [].
+
+Definition obody : list stmt :=
+  [SAssign (TName "$skip") (XConst (PBool false));
+   SAssign (TName "key_iter") (XPrim "builtins.iter" [XName "key"]);
+   SAssign (TName "values") (XList []);
+   SAssign (TName "$acc") (XList []);
+   SFor "c_expr" (XName "c_aggregate_exprs") (nbody "finalize" "c_expr" "store" []);
+   SAssign (TName "c_aggregate_exprs") (XName "$acc");
+   SForUnpack ["index"; "c_expr"] (XPrim "builtins.enumerate" [XName "c_target_exprs"]) vbody;
+   having_stmt; append_stmt].
+
+Lemma agg_output_shape :
+  f_body agg_output = [SForUnpack ["key"; "store"] (XCallMethod (XName "aggregates") "items" []) obody].
+Proof. reflexivity. Qed.
+
+Definition okeep : list string := ["c_target_exprs"; "group_indexes"; "context"; "query"].
+
+(* the last two statements: HAVING by truthiness of values[having_index] (continue desugared by rule A6), then append *)
+Lemma having_append : forall (vals : list value) (acc : list row) qobj loc flds,
+  qobj <> PSelf -> prim "attr:having_index" [qobj] = Ok having_pv ->
+  having_safe vals -> length vals = length (q_targets q) ->
+  lookup "query" loc = Some qobj -> lookup "values" loc = Some (PList (map PV vals)) ->
+  lookup "$skip" loc = Some (PBool false) -> lookup "rows" loc = Some (PList (map slots_pv acc)) ->
+  exists loc',
+    exec_block call_ref prim {| locals := loc; fields := flds |} [having_stmt; append_stmt] =
+      Ok (Next {| locals := loc'; fields := flds |}) /\
+    lookup "rows" loc' = Some (PList (map slots_pv (acc ++ (if having_ok q vals then [vals] else [])))) /\
+    frame_out ["$skip"; "rows"] loc loc'.
+Proof.
+  intros vals acc qobj loc flds Hq Hh Hs Hl Hqo Hv Hsk Hr.
+  assert (Eh : PyMini.eval call_ref prim {| locals := loc; fields := flds |} (XAttr (XName "query") "having_index") =
+               Ok ({| locals := loc; fields := flds |}, having_pv)).
+  { rewrite (eval_attr call_ref prim (XName "query") "having_index" _ _ qobj
+               (eval_name call_ref prim {| locals := loc; fields := flds |} "query" qobj Hqo) Hq).
+    cbn [String.append]. rewrite Hh. reflexivity. }
+  assert (Fin : forall loc1 (b : bool), lookup "$skip" loc1 = Some (PBool (negb b)) ->
+            lookup "rows" loc1 = Some (PList (map slots_pv acc)) -> lookup "values" loc1 = Some (PList (map PV vals)) ->
+            exists loc', exec_block call_ref prim {| locals := loc1; fields := flds |} [append_stmt] =
+                           Ok (Next {| locals := loc'; fields := flds |}) /\
+                         lookup "rows" loc' = Some (PList (map slots_pv (acc ++ (if b then [vals] else [])))) /\
+                         frame_out ["rows"] loc1 loc').
+  { intros loc1 b H1 H2 H3. unfold append_stmt. rewrite exec_block_cons.
+    assert (En : PyMini.eval call_ref prim {| locals := loc1; fields := flds |} (XNot (XName "$skip")) =
+                 Ok ({| locals := loc1; fields := flds |}, PBool b)).
+    { cbn [PyMini.eval read locals]. rewrite H1. cbn [bind pv_truthy PBool truthy]. rewrite negb_involutive. reflexivity. }
+    rewrite (exec_if call_ref prim _ _ _ _ _ _ b En eq_refl). destruct b.
+    - rewrite exec_block_cons. st. rewrite H3. st. rewrite H2. st.
+      cbn [method_call String.eqb Ascii.eqb Bool.eqb bind write locals fields exec_block].
+      eexists. split; [reflexivity|]. split; [lk; rewrite map_app; reflexivity|].
+      intros y Hy. cbn [In] in Hy. rewrite lookup_update_other by (intros ->; apply Hy; tauto). reflexivity.
+    - cbn [exec_block bind]. exists loc1. rewrite app_nil_r. split; [reflexivity|]. split; [exact H2|].
+      intros y _. reflexivity. }
+  unfold having_stmt. rewrite exec_block_cons.
+  unfold having_ok, having_safe, having_pv in *. destruct (q_having q) as [h|].
+  - destruct Hs as [Hlt Herr].
+    assert (Ec : PyMini.eval call_ref prim {| locals := loc; fields := flds |}
+                   (XCompare (XAttr (XName "query") "having_index") [(CIsNot, XConst PNone)]) =
+                 Ok ({| locals := loc; fields := flds |}, PBool true)).
+    { rewrite (eval_compare_const _ _ _ _ _ _ Eh). reflexivity. }
+    rewrite (exec_if call_ref prim _ _ _ _ _ _ true Ec eq_refl).
+    rewrite exec_block_cons.
+    assert (Ei : PyMini.eval call_ref prim {| locals := loc; fields := flds |}
+                   (XNot (XIndex (XName "values") (XAttr (XName "query") "having_index"))) =
+                 Ok ({| locals := loc; fields := flds |}, PBool (negb (truthy (nth h vals VNull))))).
+    { rewrite (eval_not _ _ {| locals := loc; fields := flds |} (PV (nth h vals VNull))).
+      - cbn [pv_truthy]. destruct (nth h vals VNull); try reflexivity; discriminate.
+      - rewrite (eval_index call_ref prim _ _ _ _ _ _ _
+                   (eval_name call_ref prim {| locals := loc; fields := flds |} "values" _ Hv) Eh).
+        rewrite (index_at_nat _ _ PNone) by (rewrite map_length; lia). rewrite nth_map_PV. reflexivity. }
+    rewrite (exec_if call_ref prim _ _ _ _ _ _ _ Ei eq_refl).
+    destruct (truthy (nth h vals VNull)) eqn:Et; cbn [negb].
+    + cbn [exec_block bind].
+      destruct (Fin loc true Hsk Hr Hv) as [loc' [E [R F]]]. exists loc'. split; [exact E|]. split; [exact R|].
+      intros y Hy. apply F. cbn [In] in *. tauto.
+    + rewrite exec_block_cons. st. cbn [exec_block bind].
+      destruct (Fin (update "$skip" (PBool true) loc) false) as [loc' [E [R F]]].
+      * lk. reflexivity.
+      * lk. exact Hr.
+      * lk. exact Hv.
+      * exists loc'. split; [exact E|]. split; [exact R|].
+        intros y Hy. rewrite F by (cbn [In] in *; tauto). cbn [In] in Hy.
+        rewrite lookup_update_other by (intros ->; apply Hy; tauto). reflexivity.
+  - assert (Ec : PyMini.eval call_ref prim {| locals := loc; fields := flds |}
+                   (XCompare (XAttr (XName "query") "having_index") [(CIsNot, XConst PNone)]) =
+                 Ok ({| locals := loc; fields := flds |}, PBool false)).
+    { rewrite (eval_compare_const _ _ _ _ _ _ Eh). reflexivity. }
+    rewrite (exec_if call_ref prim _ _ _ _ _ _ false Ec eq_refl). cbn [exec_block bind].
+    destruct (Fin loc true Hsk Hr Hv) as [loc' [E [R F]]]. exists loc'. split; [exact E|]. split; [exact R|].
+    intros y Hy. apply F. cbn [In] in *. tauto.
+Qed.
+
+Lemma frame_out_get modified loc loc' y v :
+  frame_out modified loc loc' -> ~ In y modified -> lookup y loc = Some v -> lookup y loc' = Some v.
+Proof. intros F N H. rewrite (F y N). exact H. Qed.
+
+Lemma entry_src : forall (tks : list nat) (key sl : list value) (acc : list row) vals qobj loc flds,
+  targets_ok_from 0 tks (q_targets q) -> entry_ok (key, sl) -> length vals = n ->
+  qobj <> PSelf -> prim "attr:having_index" [qobj] = Ok having_pv ->
+  lookup "key" loc = Some (key_pv key) -> lookup "store" loc = Some (slots_pv sl) ->
+  lookup "c_aggregate_exprs" loc = Some (PList (mk_nodes vals)) ->
+  lookup "c_target_exprs" loc = Some (PList (map PRef tks)) ->
+  lookup "group_indexes" loc = Some (PList (map idx g)) -> lookup "context" loc = Some cv ->
+  lookup "query" loc = Some qobj -> lookup "rows" loc = Some (PList (map slots_pv acc)) ->
+  exists loc',
+    exec_block call_ref prim {| locals := loc; fields := flds |} obody = Ok (Next {| locals := loc'; fields := flds |}) /\
+    lookup "rows" loc' = Some (PList (map slots_pv
+      (acc ++ (let vs := out_values g ctx sl 0 (q_targets q) key in if having_ok q vs then [vs] else [])))) /\
+    lookup "c_aggregate_exprs" loc' = Some (PList (mk_nodes (map PV sl))) /\
+    (forall y, In y okeep -> lookup y loc' = lookup y loc).
+Proof.
+  intros tks key sl acc vals qobj loc flds Hts [Hsl [Hgc [Hne Hhb]]] Hv Hq Hh Hk Hs Hn Hte Hgi Hc Hqo Hr.
+  cbn [fst snd] in *.
+  assert (Hhs : having_safe (out_values g ctx sl 0 (q_targets q) key)).
+  { unfold having_safe, having_bound in *. destruct (q_having q) as [h|]; [|exact I]. split; [exact Hhb|].
+    unfold no_err in Hne. rewrite Forall_forall in Hne. apply Hne. apply nth_In. rewrite out_values_length. exact Hhb. }
+  unfold obody.
+  rewrite exec_block_cons. st. rewrite exec_block_cons. st. rewrite Hk. st. rewrite Hlo by (cbn; tauto).
+  cbn [prims0 String.eqb Ascii.eqb Bool.eqb key_pv seq_items]. st.
+  rewrite exec_block_cons. st. rewrite exec_block_cons. st.
+  match goal with |- context [exec_block _ _ {| locals := ?l; fields := _ |} _] => set (loc1 := l) end.
+  rewrite exec_block_cons.
+  rewrite (exec_for call_ref prim "c_expr" _ _ {| locals := loc1; fields := flds |} {| locals := loc1; fields := flds |} (mk_nodes vals)).
+  2:{ apply eval_name. cbn [locals]. unfold loc1. lk. exact Hn. }
+  destruct (node_loop call_ref prim "finalize" "c_expr" "store" [] []
+              ltac:(discriminate) ltac:(discriminate) ltac:(discriminate) (or_introl (conj eq_refl eq_refl))
+              (mk_nodes vals) [] (slots_pv sl) loc1 flds (mk_nodes (map PV sl)) (slots_pv sl))
+    as [loc2 [El [Lt [La Lf]]]].
+  { unfold loc1. lk. exact Hs. }
+  { unfold loc1. lk. reflexivity. }
+  { intros e v H. discriminate H. }
+  { apply Hfin; assumption. }
+  rewrite El. cbn [bind]. cbn [app] in La.
+  assert (F2 : forall y, y <> "c_expr" -> y <> "store" -> y <> "$acc" -> y <> "values" -> y <> "key_iter" -> y <> "$skip" ->
+               lookup y loc2 = lookup y loc).
+  { intros y H1 H2 H3 H4 H5 H6. rewrite (Lf y H1 H2 H3). unfold loc1. rewrite !lookup_update_other by congruence. reflexivity. }
+  rewrite exec_block_cons. st. rewrite La. st.
+  match goal with |- context [exec_block _ _ {| locals := ?l; fields := _ |} _] => set (loc3 := l) end.
+  rewrite exec_block_cons.
+  assert (Een : PyMini.eval call_ref prim {| locals := loc3; fields := flds |}
+                  (XPrim "builtins.enumerate" [XName "c_target_exprs"]) =
+                Ok ({| locals := loc3; fields := flds |}, PList (enumerate_from (Z.of_nat 0) (map PRef tks)))).
+  { rewrite (eval_prim1 call_ref prim "builtins.enumerate" _ _ {| locals := loc3; fields := flds |} (PList (map PRef tks))).
+    - rewrite Hlo by (cbn; tauto). reflexivity.
+    - apply eval_name. cbn [locals]. unfold loc3. lk. rewrite F2 by discriminate. exact Hte. }
+  rewrite (exec_for_unpack call_ref prim _ _ _ _ _ _ Een).
+  destruct (values_loop (q_targets q) tks 0%nat key [] loc3 flds sl Hts Hsl Hgc) as [loc4 [E4 [Hv4 F4]]]; [| | | | |exact Hne|].
+  { unfold loc3. lk. rewrite (Lf "key_iter") by discriminate. unfold loc1. lk. reflexivity. }
+  { unfold loc3. lk. rewrite (Lf "values") by discriminate. unfold loc1. lk. reflexivity. }
+  { unfold loc3. lk. rewrite F2 by discriminate. exact Hgi. }
+  { unfold loc3. lk. rewrite F2 by discriminate. exact Hc. }
+  { unfold loc3. lk. reflexivity. }
+  rewrite E4. cbn [bind app] in *.
+  set (vs := out_values g ctx sl 0 (q_targets q) key) in *.
+  destruct (having_append vs acc qobj loc4 flds Hq Hh Hhs (out_values_length _ _ _ _)) as [loc5 [E5 [R5 F5]]].
+  { apply (frame_out_get _ _ _ _ _ F4); [unfold vmod; cbn [In]; intuition discriminate|].
+    unfold loc3. lk. rewrite F2 by discriminate. exact Hqo. }
+  { exact Hv4. }
+  { apply (frame_out_get _ _ _ _ _ F4); [unfold vmod; cbn [In]; intuition discriminate|].
+    unfold loc3. lk. rewrite (Lf "$skip") by discriminate. unfold loc1. lk. reflexivity. }
+  { apply (frame_out_get _ _ _ _ _ F4); [unfold vmod; cbn [In]; intuition discriminate|].
+    unfold loc3. lk. rewrite F2 by discriminate. exact Hr. }
+  rewrite E5. exists loc5. split; [reflexivity|]. split; [exact R5|]. split.
+  - rewrite (F5 "c_aggregate_exprs") by (cbn [In]; intuition discriminate).
+    rewrite (F4 "c_aggregate_exprs") by (unfold vmod; cbn [In]; intuition discriminate).
+    unfold loc3. lk. reflexivity.
+  - intros y Hy. unfold okeep in Hy. cbn [In] in Hy.
+    repeat (destruct Hy as [<-|Hy];
+            [rewrite F5 by (cbn [In]; intuition discriminate);
+             rewrite F4 by (unfold vmod; cbn [In]; intuition discriminate);
+             unfold loc3; lk; rewrite F2 by discriminate; reflexivity|]).
+    destruct Hy.
+Qed.
+
+Lemma output_loop : forall (tks : list nat) qobj (s : store), Forall entry_ok s ->
+  (s <> [] -> targets_ok_from 0 tks (q_targets q)) -> qobj <> PSelf -> prim "attr:having_index" [qobj] = Ok having_pv ->
+  forall (acc : list row) vals loc flds, length vals = n ->
+  lookup "c_aggregate_exprs" loc = Some (PList (mk_nodes vals)) ->
+  lookup "c_target_exprs" loc = Some (PList (map PRef tks)) ->
+  lookup "group_indexes" loc = Some (PList (map idx g)) -> lookup "context" loc = Some cv ->
+  lookup "query" loc = Some qobj -> lookup "rows" loc = Some (PList (map slots_pv acc)) ->
+  exists loc',
+    for_unpack_loop call_ref prim obody ["key"; "store"] {| locals := loc; fields := flds |} (map entry_pv s) =
+      Ok (Next {| locals := loc'; fields := flds |}) /\
+    lookup "rows" loc' = Some (PList (map slots_pv (acc ++ finalize q g ctx s))).
+Proof.
+  intros tks qobj s Hs Hts Hq Hh. induction Hs as [|[key sl] s Hk Hs IH]; intros acc vals loc flds Hv Hn Hte Hgi Hc Hqo Hr.
+  - exists loc. cbn [map for_unpack_loop]. unfold finalize. cbn [flat_map]. rewrite app_nil_r. auto.
+  - assert (Hts' : targets_ok_from 0 tks (q_targets q)) by (apply Hts; discriminate).
+    specialize (IH (fun _ => Hts')). clear Hts. rename Hts' into Hts.
+    cbn [map for_unpack_loop]. unfold entry_pv at 1. cbn [fst snd unpack_names write locals fields bind].
+    match goal with |- context [exec_block _ _ {| locals := ?l; fields := _ |} _] => set (loc1 := l) end.
+    destruct (entry_src tks key sl acc vals qobj loc1 flds Hts Hk Hv Hq Hh) as [loc2 [E [R [N K]]]];
+      try (unfold loc1; lk; assumption); try (unfold loc1; lk; reflexivity).
+    rewrite E. cbn [bind].
+    destruct (IH (acc ++ (let vs := out_values g ctx sl 0 (q_targets q) key in if having_ok q vs then [vs] else []))%list
+                 (map PV sl) loc2 flds) as [loc3 [E3 R3]].
+    + rewrite map_length. destruct Hk as [Hl _]. exact Hl.
+    + exact N.
+    + rewrite (K "c_target_exprs") by (cbn; tauto). unfold loc1. lk. exact Hte.
+    + rewrite (K "group_indexes") by (cbn; tauto). unfold loc1. lk. exact Hgi.
+    + rewrite (K "context") by (cbn; tauto). unfold loc1. lk. exact Hc.
+    + rewrite (K "query") by (cbn; tauto). unfold loc1. lk. exact Hqo.
+    + exact R.
+    + exists loc3. split; [exact E3|]. rewrite R3. unfold finalize. cbn [flat_map]. rewrite <- app_assoc. reflexivity.
+Qed.
+
+(* (4) the translated output part appends, for every entry of the store in insertion order, the row of Exec.out_values
+   unless HAVING is falsy: Exec.finalize *)
+Lemma agg_output_gen : forall (tks : list nat) qobj (s : store) (acc : list row) vals loc flds,
+  Forall entry_ok s -> (s <> [] -> targets_ok_from 0 tks (q_targets q)) ->
+  qobj <> PSelf -> prim "attr:having_index" [qobj] = Ok having_pv -> length vals = n ->
+  lookup "aggregates" loc = Some (dict_pv s) -> lookup "c_aggregate_exprs" loc = Some (PList (mk_nodes vals)) ->
+  lookup "c_target_exprs" loc = Some (PList (map PRef tks)) ->
+  lookup "group_indexes" loc = Some (PList (map idx g)) -> lookup "context" loc = Some cv ->
+  lookup "query" loc = Some qobj -> lookup "rows" loc = Some (PList (map slots_pv acc)) ->
+  exists loc',
+    exec_block call_ref prim {| locals := loc; fields := flds |} (f_body agg_output) =
+      Ok (Next {| locals := loc'; fields := flds |}) /\
+    lookup "rows" loc' = Some (PList (map slots_pv (acc ++ finalize q g ctx s))).
+Proof.
+  intros tks qobj s acc vals loc flds Hs Hts Hq Hh Hv Hag Hn Hte Hgi Hc Hqo Hr.
+  rewrite agg_output_shape. rewrite exec_block_cons.
+  assert (Ei : PyMini.eval call_ref prim {| locals := loc; fields := flds |} (XCallMethod (XName "aggregates") "items" []) =
+               Ok ({| locals := loc; fields := flds |}, PList (map entry_pv s))).
+  { cbn [PyMini.eval read locals bind String.append]. rewrite Hag. cbn [bind].
+    rewrite Hlo by (cbn; tauto). reflexivity. }
+  rewrite (exec_for_unpack call_ref prim _ _ _ _ _ _ Ei).
+  destruct (output_loop tks qobj s Hs Hts Hq Hh acc vals loc flds Hv Hn Hte Hgi Hc Hqo Hr) as [loc' [E R]].
+  rewrite E. cbn [bind exec_block]. exists loc'. split; [reflexivity|exact R].
+Qed.
+
+Theorem agg_output_src : forall (tks : list nat) qobj (s : store) (acc : list row) vals,
+  Forall entry_ok s -> (s <> [] -> targets_ok_from 0 tks (q_targets q)) ->
+  qobj <> PSelf -> prim "attr:having_index" [qobj] = Ok having_pv -> length vals = n ->
+  exists s',
+    exec_block call_ref prim
+      {| locals := [("aggregates", dict_pv s); ("c_aggregate_exprs", PList (mk_nodes vals));
+                    ("c_target_exprs", PList (map PRef tks)); ("group_indexes", PList (map idx g)); ("context", cv);
+                    ("query", qobj); ("rows", PList (map slots_pv acc))]; fields := [] |}
+      (f_body agg_output) = Ok (Next s') /\
+    lookup "rows" (locals s') = Some (PList (map slots_pv (acc ++ finalize q g ctx s))).
+Proof.
+  intros tks qobj s acc vals Hs Hts Hq Hh Hv.
+  destruct (agg_output_gen tks qobj s acc vals
+              [("aggregates", dict_pv s); ("c_aggregate_exprs", PList (mk_nodes vals));
+               ("c_target_exprs", PList (map PRef tks)); ("group_indexes", PList (map idx g)); ("context", cv);
+               ("query", qobj); ("rows", PList (map slots_pv acc))] [] Hs Hts Hq Hh Hv
+              eq_refl eq_refl eq_refl eq_refl eq_refl eq_refl eq_refl)
+    as [loc' [E R]].
+  eexists. split; [exact E|exact R].
+Qed.
+End Output.
+
+(* ================================================================== part 2: the split of the targets; the allocate loop *)
+Lemma refs_gca : refs = [(0%nat, "beanquery.compiler.get_columns_and_aggregates")].
+Proof. reflexivity. Qed.
+
+Section Split.
+Variable call_ref : nat -> list pv -> pv.
+Variable prim : string -> list pv -> res pv.
+Variable g : list nat.
+Variable aggs_of : nat -> list pv.        (* the aggregate nodes below a compiled target, in hunting order *)
+Hypothesis Hlo : forall name args, In name lo_names -> prim name args = prims0 name args.
+
+(* compiler.get_columns_and_aggregates (opaque callable 0 of Gen/SrcAgg.refs) returns the pair (columns, aggregates) *)
+Definition gca_ok (k : nat) : Prop := exists cols, call_ref 0 [PRef k] = PTuple [cols; PList (aggs_of k)].
+
+Fixpoint split_from (i : nat) (tks : list nat) : list nat * list pv :=
+  match tks with
+  | [] => ([], [])
+  | k :: t => let p := split_from (S i) t in
+              if existsb (Nat.eqb i) g then (k :: fst p, snd p) else (fst p, (aggs_of k ++ snd p)%list)
+  end.
+
+Definition sbody : list stmt :=
+  [SIf (XCompare (XName "index") [(CIn, XName "group_indexes")])
+     [SExpr (XMethod (TName "c_nonaggregate_exprs") "append" [XName "c_expr"])]
+     [SUnpack [TName "_"; TName "aggregate_exprs"] (XCall (XConst (PRef 0)) [XName "c_expr"] None);
+      SExpr (XMethod (TName "c_aggregate_exprs") "extend" [XName "aggregate_exprs"])]].
+
+Definition smod : list string :=
+  ["index"; "c_expr"; "_"; "aggregate_exprs"; "c_nonaggregate_exprs"; "c_aggregate_exprs"].
+
+Lemma split_loop : forall tks i na aa loc flds,
+  Forall gca_ok tks ->
+  lookup "c_nonaggregate_exprs" loc = Some (PList na) -> lookup "c_aggregate_exprs" loc = Some (PList aa) ->
+  lookup "group_indexes" loc = Some (PList (map idx g)) ->
+  exists loc',
+    for_unpack_loop call_ref prim sbody ["index"; "c_expr"] {| locals := loc; fields := flds |}
+      (enumerate_from (Z.of_nat i) (map PRef tks)) = Ok (Next {| locals := loc'; fields := flds |}) /\
+    lookup "c_nonaggregate_exprs" loc' = Some (PList (na ++ map PRef (fst (split_from i tks)))) /\
+    lookup "c_aggregate_exprs" loc' = Some (PList (aa ++ snd (split_from i tks))) /\
+    frame_out smod loc loc'.
+Proof.
+  induction tks as [|k tks IH]; intros i na aa loc flds Hg Hna Haa Hgi.
+  - exists loc. cbn [map enumerate_from for_unpack_loop split_from fst snd]. rewrite !app_nil_r.
+    repeat split; auto; intros y _; reflexivity.
+  - inversion Hg as [|? ? [cols Hk] Hg']; subst.
+    cbn [map enumerate_from for_unpack_loop unpack_names write locals fields bind].
+    set (loc1 := update "c_expr" (PRef k) (update "index" (PInt (Z.of_nat i)) loc)).
+    assert (Hna1 : lookup "c_nonaggregate_exprs" loc1 = Some (PList na)) by (unfold loc1; lk; exact Hna).
+    assert (Haa1 : lookup "c_aggregate_exprs" loc1 = Some (PList aa)) by (unfold loc1; lk; exact Haa).
+    assert (Hgi1 : lookup "group_indexes" loc1 = Some (PList (map idx g))) by (unfold loc1; lk; exact Hgi).
+    assert (Hix : lookup "index" loc1 = Some (idx i)) by (unfold loc1; lk; reflexivity).
+    assert (Hce : lookup "c_expr" loc1 = Some (PRef k)) by (unfold loc1; lk; reflexivity).
+    assert (Ec : PyMini.eval call_ref prim {| locals := loc1; fields := flds |}
+                   (XCompare (XName "index") [(CIn, XName "group_indexes")]) =
+                 Ok ({| locals := loc1; fields := flds |}, PBool (existsb (Nat.eqb i) g))).
+    { st. rewrite Hix. st. rewrite Hgi1. st. cbn [compare1]. rewrite existsb_idx. cbn [bind].
+      destruct (existsb (Nat.eqb i) g); reflexivity. }
+    unfold sbody at 1. rewrite exec_block_cons.
+    rewrite (exec_if call_ref prim _ _ _ _ _ _ _ Ec eq_refl).
+    cbn [split_from]. replace (Z.of_nat i + 1) with (Z.of_nat (S i)) by lia.
+    destruct (existsb (Nat.eqb i) g) eqn:Eg; cbn [fst snd truthy].
+    + rewrite exec_block_cons. st. rewrite Hce. st. rewrite Hna1. st.
+      cbn [method_call String.eqb Ascii.eqb Bool.eqb bind write locals fields exec_block].
+      match goal with |- context [for_unpack_loop _ _ _ _ {| locals := ?l; fields := _ |} _] => set (loc2 := l) end.
+      destruct (IH (S i) (na ++ [PRef k])%list aa loc2 flds Hg') as [loc' [E [R1 [R2 F]]]].
+      * unfold loc2. lk. reflexivity.
+      * unfold loc2. lk. exact Haa1.
+      * unfold loc2. lk. exact Hgi1.
+      * exists loc'. split; [exact E|]. split; [rewrite R1, <- app_assoc; reflexivity|]. split; [exact R2|].
+        intros y Hy. rewrite (F y Hy). unfold loc2, loc1. unfold smod in Hy. cbn [In] in Hy.
+        rewrite !lookup_update_other by (intros ->; apply Hy; tauto). reflexivity.
+    + rewrite exec_block_cons. st. rewrite Hce. st. cbn [do_call]. rewrite Hk. st.
+      rewrite exec_block_cons. st. rewrite Haa1. st.
+      cbn [method_call String.eqb Ascii.eqb Bool.eqb bind write locals fields exec_block].
+      match goal with |- context [for_unpack_loop _ _ _ _ {| locals := ?l; fields := _ |} _] => set (loc2 := l) end.
+      destruct (IH (S i) na (aa ++ aggs_of k)%list loc2 flds Hg') as [loc' [E [R1 [R2 F]]]].
+      * unfold loc2. lk. exact Hna1.
+      * unfold loc2. lk. reflexivity.
+      * unfold loc2. lk. exact Hgi1.
+      * exists loc'. split; [exact E|]. split; [exact R1|]. split; [rewrite R2, <- app_assoc; reflexivity|].
+        intros y Hy. rewrite (F y Hy). unfold loc2, loc1. unfold smod in Hy. cbn [In] in Hy.
+        rewrite !lookup_update_other by (intros ->; apply Hy; tauto). reflexivity.
+Qed.
+
+Lemma agg_split_shape :
+  f_body agg_split = [SAssign (TName "c_nonaggregate_exprs") (XList []); SAssign (TName "c_aggregate_exprs") (XList []);
+                      SForUnpack ["index"; "c_expr"] (XPrim "builtins.enumerate" [XName "c_target_exprs"]) sbody].
+Proof. reflexivity. Qed.
+
+(* (2) the translated split: grouping expressions = the targets at the positions of group_indexes, in target order;
+   aggregate nodes = what get_columns_and_aggregates finds below the other targets, concatenated in target order *)
+Lemma agg_split_gen : forall (tks : list nat) loc flds,
+  Forall gca_ok tks ->
+  lookup "c_target_exprs" loc = Some (PList (map PRef tks)) -> lookup "group_indexes" loc = Some (PList (map idx g)) ->
+  exists loc',
+    exec_block call_ref prim {| locals := loc; fields := flds |} (f_body agg_split) =
+      Ok (Next {| locals := loc'; fields := flds |}) /\
+    lookup "c_nonaggregate_exprs" loc' = Some (PList (map PRef (fst (split_from 0 tks)))) /\
+    lookup "c_aggregate_exprs" loc' = Some (PList (snd (split_from 0 tks))) /\
+    frame_out smod loc loc'.
+Proof.
+  intros tks loc flds Hg Hte Hgi. rewrite agg_split_shape.
+  rewrite exec_block_cons. st. rewrite exec_block_cons. st.
+  match goal with |- context [exec_block _ _ {| locals := ?l; fields := _ |} _] => set (loc1 := l) end.
+  rewrite exec_block_cons.
+  assert (Een : PyMini.eval call_ref prim {| locals := loc1; fields := flds |}
+                  (XPrim "builtins.enumerate" [XName "c_target_exprs"]) =
+                Ok ({| locals := loc1; fields := flds |}, PList (enumerate_from (Z.of_nat 0) (map PRef tks)))).
+  { rewrite (eval_prim1 call_ref prim "builtins.enumerate" _ _ {| locals := loc1; fields := flds |} (PList (map PRef tks))).
+    - rewrite Hlo by (cbn; tauto). reflexivity.
+    - apply eval_name. cbn [locals]. unfold loc1. lk. exact Hte. }
+  rewrite (exec_for_unpack call_ref prim _ _ _ _ _ _ Een).
+  destruct (split_loop tks 0%nat [] [] loc1 flds Hg) as [loc' [E [R1 [R2 F]]]].
+  { unfold loc1. lk. reflexivity. }
+  { unfold loc1. lk. reflexivity. }
+  { unfold loc1. lk. exact Hgi. }
+  rewrite E. cbn [bind exec_block app] in *. exists loc'. split; [reflexivity|]. split; [exact R1|]. split; [exact R2|].
+  intros y Hy. rewrite (F y Hy). unfold loc1. unfold smod in Hy. cbn [In] in Hy.
+  rewrite !lookup_update_other by (intros ->; apply Hy; tauto). reflexivity.
+Qed.
+
+(* ---- the allocate loop *)
+Lemma agg_alloc_shape :
+  f_body agg_alloc = [SAssign (TName "allocator") (XPrim "new:beanquery.query_execute.Allocator" []);
+                      SAssign (TName "$acc") (XList []);
+                      SFor "c_expr" (XName "c_aggregate_exprs") (nbody "allocate" "c_expr" "allocator" []);
+                      SAssign (TName "c_aggregate_exprs") (XName "$acc")].
+Proof. reflexivity. Qed.
+
+Definition amod : list string := ["allocator"; "$acc"; "c_expr"; "c_aggregate_exprs"].
+
+Lemma agg_alloc_gen : forall (raw nodes' : list pv) (allocv0 allocv' : pv) loc flds,
+  prim "new:beanquery.query_execute.Allocator" [] = Ok allocv0 ->
+  node_fold (fun nd th => method_call prim "allocate" nd [th]) raw allocv0 = Ok (nodes', allocv') ->
+  lookup "c_aggregate_exprs" loc = Some (PList raw) ->
+  exists loc',
+    exec_block call_ref prim {| locals := loc; fields := flds |} (f_body agg_alloc) =
+      Ok (Next {| locals := loc'; fields := flds |}) /\
+    lookup "allocator" loc' = Some allocv' /\ lookup "c_aggregate_exprs" loc' = Some (PList nodes') /\
+    frame_out amod loc loc'.
+Proof.
+  intros raw nodes' allocv0 allocv' loc flds Hnew Hf Hn. rewrite agg_alloc_shape.
+  rewrite exec_block_cons. st. rewrite Hnew. st. rewrite exec_block_cons. st.
+  match goal with |- context [exec_block _ _ {| locals := ?l; fields := _ |} _] => set (loc1 := l) end.
+  rewrite exec_block_cons.
+  rewrite (exec_for call_ref prim "c_expr" _ _ {| locals := loc1; fields := flds |} {| locals := loc1; fields := flds |} raw).
+  2:{ apply eval_name. cbn [locals]. unfold loc1. lk. exact Hn. }
+  destruct (node_loop call_ref prim "allocate" "c_expr" "allocator" [] []
+              ltac:(discriminate) ltac:(discriminate) ltac:(discriminate) (or_introl (conj eq_refl eq_refl))
+              raw [] allocv0 loc1 flds nodes' allocv') as [loc2 [El [Lt [La Lf]]]].
+  { unfold loc1. lk. reflexivity. }
+  { unfold loc1. lk. reflexivity. }
+  { intros e v H. discriminate H. }
+  { exact Hf. }
+  rewrite El. cbn [bind]. cbn [app] in La.
+  rewrite exec_block_cons. st. rewrite La. st. cbn [exec_block].
+  eexists. split; [reflexivity|]. split; [lk; exact Lt|]. split; [lk; reflexivity|].
+  intros y Hy. unfold amod in Hy. cbn [In] in Hy.
+  rewrite lookup_update_other by (intros ->; apply Hy; tauto).
+  rewrite Lf by (intros ->; apply Hy; tauto). unfold loc1.
+  rewrite !lookup_update_other by (intros ->; apply Hy; tauto). reflexivity.
+Qed.
+End Split.
+
+(* ================================================================== part 5: the whole aggregated branch *)
+Lemma exec_block_app call_ref prim : forall a b s,
+  exec_block call_ref prim s (a ++ b) =
+  bind (exec_block call_ref prim s a) (fun o => match o with Next s1 => exec_block call_ref prim s1 b | Ret _ _ => Ok o end).
+Proof.
+  induction a as [|c a IH]; intros b s; [reflexivity|]. cbn [app]. rewrite !exec_block_cons.
+  destruct (PyMini.exec call_ref prim s c) as [[s1|s1 v]| |]; cbn [bind]; [apply IH|reflexivity|reflexivity|reflexivity].
+Qed.
+
+Lemma agg_branch_shape : f_body agg_branch = (f_body agg_split ++ f_body agg_alloc ++ f_body agg_scan ++ f_body agg_output)%list.
+Proof. reflexivity. Qed.
+
+Lemma last_map {A B} (f : A -> B) : forall (l : list A) a b, l <> [] -> last (map f l) b = f (last l a).
+Proof.
+  induction l as [|x l IH]; intros a b H; [congruence|]. destruct l as [|y l]; [reflexivity|].
+  change (last (map f (x :: y :: l)) b) with (last (map f (y :: l)) b).
+  change (last (x :: y :: l) a) with (last (y :: l) a). apply IH. discriminate.
+Qed.
+
+(* ---- invariants of the model's store *)
+Definition KS (K S : list value -> Prop) (ks : list value * list value) : Prop := K (fst ks) /\ S (snd ks).
+
+Lemma mset_KS (K S : list value -> Prop) key sl : forall s, Forall (KS K S) s -> K key -> S sl -> Forall (KS K S) (mset key sl s).
+Proof.
+  induction s as [|[k x] t IH]; intros Hs Hk Hsl; cbn [mset].
+  - constructor; [split; assumption|constructor].
+  - inversion Hs as [|? ? [H1 H2] H3]; subst. destruct (row_eq k key).
+    + constructor; [split; assumption|exact H3].
+    + constructor; [split; assumption|apply IH; assumption].
+Qed.
+Lemma mget_KS (K S : list value -> Prop) key : forall s sl, Forall (KS K S) s -> mget key s = Some sl -> S sl.
+Proof.
+  induction s as [|[k x] t IH]; intros sl Hs Hm; [discriminate|]. cbn [mget] in Hm.
+  inversion Hs as [|? ? [H1 H2] H3]; subst. destruct (row_eq k key); [injection Hm as <-; exact H2|]. apply IH; assumption.
+Qed.
+
+Lemma scan_agg_KS q g (K S : list value -> Prop) :
+  (forall r, K (group_key q g r)) -> S (init_all q) -> (forall r sl, S sl -> S (upd_all q r sl)) ->
+  forall rows s, Forall (KS K S) s -> Forall (KS K S) (scan_agg q g s rows).
+Proof.
+  intros HK HS0 HSu. induction rows as [|r t IH]; intros s Hs; [exact Hs|]. cbn [scan_agg]. apply IH.
+  destruct (passes q r); [|exact Hs].
+  destruct (store_update_dict q r (group_key q g r) s) as [sl [Hget Hup]]. cbn zeta in Hget, Hup. rewrite Hup.
+  assert (Hs1 : Forall (KS K S) (match mget (group_key q g r) s with Some _ => s | None => mset (group_key q g r) (init_all q) s end)).
+  { destruct (mget (group_key q g r) s); [exact Hs|]. apply mset_KS; auto. }
+  apply mset_KS; auto. apply HSu. apply (mget_KS K S _ _ _ Hs1 Hget).
+Qed.
+
+Lemma upd_all_length q r sl : length sl = length (q_aggs q) -> length (upd_all q r sl) = length (q_aggs q).
+Proof. intros H. unfold upd_all. rewrite map_length, combine_length, H. apply Nat.min_id. Qed.
+
+Lemma group_key_from g (f : enode -> value) : forall ts i,
+  length (flat_map (fun '(i, e) => if existsb (Nat.eqb i) g then [f e] else []) (combine (seq i (length ts)) ts)) =
+  gcount g i ts.
+Proof.
+  induction ts as [|e ts IH]; intros i; [reflexivity|]. cbn [length seq combine flat_map gcount].
+  rewrite app_length, IH. destruct (existsb (Nat.eqb i) g); reflexivity.
+Qed.
+
+Lemma group_key_length q g r : length (group_key q g r) = gcount g 0 (q_targets q).
+Proof. unfold group_key. apply (group_key_from g (Verif.Model.Eval.eval r [])). Qed.
+
+Section Branch.
+Variable call_ref : nat -> list pv -> pv.
+Variable prim : string -> list pv -> res pv.
+Variable ctx_of : row -> pv.
+Variable q : query.
+Variable g : list nat.
+Variable table : list row.
+Variable mk_nodes : list pv -> list pv.
+Variable allocv : pv.
+Variable good : list value -> Prop.
+Variable aggs_of : nat -> list pv.
+Variable raw : list pv.                   (* the aggregate nodes before allocate *)
+Variables (allocv0 : pv) (vals0 : list pv).
+Notation mev := Verif.Model.Eval.eval.
+Notation n := (length (q_aggs q)).
+Notation ctx := (last table []).
+
+Hypothesis Hlo : forall name args, In name lo_names -> prim name args = prims0 name args.
+Hypothesis Hcreate : prim "call:create_store" [allocv] = Ok (slots_pv (repeat VNull n)).
+Hypothesis Hinit : forall vals, length vals = n -> exists vals', length vals' = n /\
+  node_fold (fun nd th => method_call prim "initialize" nd [th]) (mk_nodes vals) (slots_pv (repeat VNull n)) =
+  Ok (mk_nodes vals', slots_pv (init_all q)).
+Hypothesis Hupd : forall vals r sl, length vals = n -> In r table -> good sl ->
+  node_fold (fun nd th => method_call prim "update" nd [th; ctx_of r]) (mk_nodes vals) (slots_pv sl) =
+  Ok (mk_nodes vals, slots_pv (upd_all q r sl)).
+Hypothesis Hgood_init : good (init_all q).
+Hypothesis Hgood_upd : forall r sl, In r table -> good sl -> good (upd_all q r sl).
+Hypothesis Hfin : forall vals sl, length vals = n -> length sl = n ->
+  node_fold (fun nd th => method_call prim "finalize" nd [th]) (mk_nodes vals) (slots_pv sl) =
+  Ok (mk_nodes (map PV sl), slots_pv sl).
+Hypothesis Hnew : prim "new:beanquery.query_execute.Allocator" [] = Ok allocv0.
+Hypothesis Halloc : node_fold (fun nd th => method_call prim "allocate" nd [th]) raw allocv0 = Ok (mk_nodes vals0, allocv).
+Hypothesis Hvals0 : length vals0 = n.
+
+(* a grouped target: its value does not depend on the state of the aggregate nodes *)
+Fixpoint gtargets_ok_from (i : nat) (tks : list nat) (ts : list enode) : Prop :=
+  match tks, ts with
+  | [], [] => True
+  | k :: tks', e :: ts' =>
+      (existsb (Nat.eqb i) g = true -> forall r, In r table -> expr_on call_ref ctx_of mk_nodes r k (mev r [] e)) /\
+      gtargets_ok_from (S i) tks' ts'
+  | _, _ => False
+  end.
+
+Lemma gtargets_keys : forall r, In r table -> forall ts tks i, gtargets_ok_from i tks ts ->
+  Forall2 (expr_on call_ref ctx_of mk_nodes r) (fst (split_from g aggs_of i tks))
+    (flat_map (fun '(i, e) => if existsb (Nat.eqb i) g then [mev r [] e] else []) (combine (seq i (length ts)) ts)).
+Proof.
+  intros r Hr. induction ts as [|e ts IH]; intros tks i H; destruct tks as [|k tks]; try destruct H; [constructor|].
+  cbn [split_from length seq combine flat_map]. specialize (IH tks (S i) H0).
+  destruct (existsb (Nat.eqb i) g); cbn [fst app]; [constructor; auto|exact IH].
+Qed.
+
+Lemma gtargets_keys_ok tks : gtargets_ok_from 0 tks (q_targets q) ->
+  keys_ok call_ref ctx_of q g table mk_nodes (fst (split_from g aggs_of 0 tks)).
+Proof. intros H r Hr. unfold group_key. apply gtargets_keys; assumption. Qed.
+
+(* (5) the whole translated aggregated branch appends Exec.finalize (Exec.scan_agg ..) to rows *)
+Theorem agg_branch_src : forall (tks : list nat) (cw qobj : pv) (acc : list row),
+  Forall (gca_ok call_ref aggs_of) tks -> snd (split_from g aggs_of 0 tks) = raw ->
+  qobj <> PSelf -> prim "attr:table" [qobj] = Ok (PList (map ctx_of table)) ->
+  prim "attr:having_index" [qobj] = Ok (having_pv q) ->
+  where_ok call_ref ctx_of q table mk_nodes cw ->
+  gtargets_ok_from 0 tks (q_targets q) ->
+  (table <> [] -> targets_ok_from call_ref q g ctx (ctx_of ctx) mk_nodes 0 tks (q_targets q)) ->
+  (forall ks, In ks (scan_agg q g [] table) -> no_err (out_values g ctx (snd ks) 0 (q_targets q) (fst ks))) ->
+  having_bound q ->
+  exists s',
+    exec_block call_ref prim
+      {| locals := [("c_target_exprs", PList (map PRef tks)); ("group_indexes", PList (map idx g)); ("query", qobj);
+                    ("c_where", cw); ("rows", PList (map slots_pv acc))]; fields := [] |}
+      (f_body agg_branch) = Ok (Next s') /\
+    lookup "rows" (locals s') = Some (PList (map slots_pv (acc ++ finalize q g ctx (scan_agg q g [] table)))).
+Proof.
+  intros tks cw qobj acc Hg Hraw Hq Htab Hhav Hw Hgt Hts Hsafe Hhb.
+  rewrite agg_branch_shape.
+  set (loc0 := [("c_target_exprs", PList (map PRef tks)); ("group_indexes", PList (map idx g)); ("query", qobj);
+                ("c_where", cw); ("rows", PList (map slots_pv acc))]).
+  (* split *)
+  destruct (agg_split_gen call_ref prim g aggs_of Hlo tks loc0 [] Hg eq_refl eq_refl) as [loc1 [E1 [N1 [A1 F1]]]].
+  rewrite exec_block_app, E1. cbn [bind]. rewrite Hraw in A1.
+  (* allocate *)
+  destruct (agg_alloc_gen call_ref prim raw (mk_nodes vals0) allocv0 allocv loc1 [] Hnew Halloc A1)
+    as [loc2 [E2 [Al2 [A2 F2]]]].
+  rewrite exec_block_app, E2. cbn [bind].
+  assert (K2 : forall y v, ~ In y smod -> ~ In y amod -> lookup y loc0 = Some v -> lookup y loc2 = Some v).
+  { intros y v H1 H2 H. rewrite (F2 y H2), (F1 y H1). exact H. }
+  (* scan *)
+  destruct (agg_scan_gen call_ref prim ctx_of q g table mk_nodes allocv good Hlo Hcreate Hinit Hupd Hgood_init Hgood_upd
+              cw qobj (fst (split_from g aggs_of 0 tks)) vals0 loc2 [] Hq Htab Hw (gtargets_keys_ok tks Hgt) Hvals0)
+    as [loc3 [vals3 [E3 [Ag3 [C3 [V3 [A3 F3]]]]]]].
+  { apply K2; [unfold smod|unfold amod|reflexivity]; cbn [In]; intuition discriminate. }
+  { apply K2; [unfold smod|unfold amod|reflexivity]; cbn [In]; intuition discriminate. }
+  { rewrite (F2 "c_nonaggregate_exprs") by (unfold amod; cbn [In]; intuition discriminate). exact N1. }
+  { exact Al2. }
+  { exact A2. }
+  rewrite exec_block_app, E3. cbn [bind].
+  (* output *)
+  assert (Hent : Forall (entry_ok q g ctx) (scan_agg q g [] table)).
+  { pose proof (scan_agg_KS q g (fun k => (gcount g 0 (q_targets q) <= length k)%nat) (fun sl => length sl = n)) as H.
+    specialize (H (fun r => eq_ind_r (fun x => (_ <= x)%nat) (le_n _) (group_key_length q g r))).
+    specialize (H (map_length _ _) (upd_all_length q) table [] (Forall_nil _)).
+    rewrite Forall_forall in *. intros ks Hks. destruct (H ks Hks) as [H1 H2]. unfold entry_ok. auto. }
+  assert (Hcv : scan_agg q g [] table <> [] -> last (map ctx_of table) PNone = ctx_of ctx /\ table <> []).
+  { intros Hne. destruct table as [|r0 t0] eqn:Et; [exfalso; apply Hne; reflexivity|].
+    split; [apply last_map; discriminate|discriminate]. }
+  destruct (scan_agg q g [] table) as [|e0 s0] eqn:Es.
+  - (* no group: the loop body is never entered *)
+    destruct (agg_output_gen call_ref prim q g ctx (last (map ctx_of table) PNone) mk_nodes Hlo Hfin tks qobj [] acc vals3 loc3 []
+                (Forall_nil _) (fun H => False_ind _ (H eq_refl)) Hq Hhav V3 Ag3 A3) as [loc4 [E4 R4]].
+    + rewrite (F3 "c_target_exprs") by (cbn; tauto). apply K2; [unfold smod|unfold amod|reflexivity]; cbn [In]; intuition discriminate.
+    + rewrite (F3 "group_indexes") by (cbn; tauto). apply K2; [unfold smod|unfold amod|reflexivity]; cbn [In]; intuition discriminate.
+    + exact C3.
+    + rewrite (F3 "query") by (cbn; tauto). apply K2; [unfold smod|unfold amod|reflexivity]; cbn [In]; intuition discriminate.
+    + rewrite (F3 "rows") by (cbn; tauto). apply K2; [unfold smod|unfold amod|reflexivity]; cbn [In]; intuition discriminate.
+    + rewrite E4. eexists. split; [reflexivity|exact R4].
+  - destruct (Hcv ltac:(discriminate)) as [Hc Hne]. rewrite Hc in C3.
+    destruct (agg_output_gen call_ref prim q g ctx (ctx_of ctx) mk_nodes Hlo Hfin tks qobj (e0 :: s0) acc vals3 loc3 []
+                Hent (fun _ => Hts Hne) Hq Hhav V3 Ag3 A3) as [loc4 [E4 R4]].
+    + rewrite (F3 "c_target_exprs") by (cbn; tauto). apply K2; [unfold smod|unfold amod|reflexivity]; cbn [In]; intuition discriminate.
+    + rewrite (F3 "group_indexes") by (cbn; tauto). apply K2; [unfold smod|unfold amod|reflexivity]; cbn [In]; intuition discriminate.
+    + exact C3.
+    + rewrite (F3 "query") by (cbn; tauto). apply K2; [unfold smod|unfold amod|reflexivity]; cbn [In]; intuition discriminate.
+    + rewrite (F3 "rows") by (cbn; tauto). apply K2; [unfold smod|unfold amod|reflexivity]; cbn [In]; intuition discriminate.
+    + rewrite E4. eexists. split; [reflexivity|exact R4].
+Qed.
+End Branch.
+
+(* ================================================================== linking: the branch run with the translated methods *)
+Definition raw_nodes (ds : list (nat * nat * pv)) (vals : list pv) : list pv :=
+  map (fun dv => node_pv (fst (fst (fst dv))) PNone (PRef (snd (fst (fst dv)))) (snd (fst dv)) (snd dv)) (combine ds vals).
+
+Lemma Forall2_len {A B} (R : A -> B -> Prop) l m : Forall2 R l m -> length l = length m.
+Proof. induction 1; cbn; congruence. Qed.
+
+Lemma agg_class_lt f c : agg_class f c -> (c < 8)%nat.
+Proof. unfold agg_class. destruct f; intros H; try destruct H; subst; lia. Qed.
+
+Section Link2.
+Variable call_ref : nat -> list pv -> pv.
+Variable ctx_of : row -> pv.
+Variable q : query.
+Variable table : list row.
+Notation p1 := (prims1 call_ref alloc_init alloc_allocate alloc_create_store).
+Notation p2 := (prims2 call_ref alloc_init alloc_allocate alloc_create_store classes).
+
+Lemma node_alloc_p2 : forall c kd o v (z : Z), (c < 8)%nat ->
+  method_call p2 "allocate" (node_pv c PNone (PRef kd) o v) [alloc_pv (PInt z)] =
+  Ok (node_pv c (PInt z) (PRef kd) o v, alloc_pv (PInt (z + 1))).
+Proof.
+  intros c kd o v z Hc.
+  do 8 (destruct c as [|c]; [reflexivity|]). lia.
+Qed.
+
+Lemma node_fin_p2 : forall c kd o i v (sl : list value), (c < 8)%nat -> (i < length sl)%nat ->
+  method_call p2 "finalize" (anode c i kd o v) [slots_pv sl] = Ok (anode c i kd o (PV (nth i sl VNull)), slots_pv sl).
+Proof.
+  intros c kd o i v sl Hc Hi. rewrite mc_node. cbn [String.append]. unfold slots_pv.
+  destruct (finalize_call_src call_ref i kd o v PNone sl Hi) as [E _].
+  destruct c as [|c]; [rewrite (p2_protocol call_ref "method:finalize" 0%nat class_Count aggm_EvalAggregator_finalize) by reflexivity; rewrite E; reflexivity|].
+  destruct c as [|c]; [rewrite (p2_protocol call_ref "method:finalize" 1%nat class_CountArg aggm_EvalAggregator_finalize) by reflexivity; rewrite E; reflexivity|].
+  destruct c as [|c]; [rewrite (p2_protocol call_ref "method:finalize" 2%nat class_SumInt aggm_EvalAggregator_finalize) by reflexivity; rewrite E; reflexivity|].
+  destruct c as [|c]; [rewrite (p2_protocol call_ref "method:finalize" 3%nat class_SumDecimal aggm_EvalAggregator_finalize) by reflexivity; rewrite E; reflexivity|].
+  destruct c as [|c]; [rewrite (p2_protocol call_ref "method:finalize" 4%nat class_First aggm_EvalAggregator_finalize) by reflexivity; rewrite E; reflexivity|].
+  destruct c as [|c]; [rewrite (p2_protocol call_ref "method:finalize" 5%nat class_Last aggm_EvalAggregator_finalize) by reflexivity; rewrite E; reflexivity|].
+  destruct c as [|c]; [rewrite (p2_protocol call_ref "method:finalize" 6%nat class_Min aggm_EvalAggregator_finalize) by reflexivity; rewrite E; reflexivity|].
+  destruct c as [|c]; [rewrite (p2_protocol call_ref "method:finalize" 7%nat class_Max aggm_EvalAggregator_finalize) by reflexivity; rewrite E; reflexivity|].
+  lia.
+Qed.
+
+Lemma alloc_fold : forall ds vals i, Forall (fun d => (fst (fst d) < 8)%nat) ds -> length vals = length ds ->
+  node_fold (fun nd th => method_call p2 "allocate" nd [th]) (raw_nodes ds vals) (alloc_pv (PInt (Z.of_nat i))) =
+  Ok (mk_nodes_from i ds vals, alloc_pv (PInt (Z.of_nat (i + length ds)))).
+Proof.
+  induction ds as [|[[c kd] o] ds IH]; intros vals i Hc Hv.
+  - destruct vals; [|discriminate]. cbn [raw_nodes combine map node_fold mk_nodes_from length]. rewrite Nat.add_0_r. reflexivity.
+  - destruct vals as [|v vals]; [discriminate|]. cbn [length] in Hv. injection Hv as Hv.
+    inversion Hc as [|? ? Hc1 Hc2]; subst. cbn [fst] in Hc1.
+    unfold raw_nodes. cbn [combine map node_fold fst snd]. rewrite (node_alloc_p2 c kd o v _ Hc1). cbn [bind fst snd].
+    fold (raw_nodes ds vals). replace (Z.of_nat i + 1) with (Z.of_nat (S i)) by lia.
+    rewrite (IH vals (S i) Hc2 Hv). cbn [bind fst snd mk_nodes_from length].
+    replace (S i + length ds)%nat with (i + S (length ds))%nat by lia. reflexivity.
+Qed.
+
+Lemma fin_fold : forall ds i (pre rest : list value) vals, Forall (fun d => (fst (fst d) < 8)%nat) ds ->
+  length pre = i -> length rest = length ds -> length vals = length ds ->
+  node_fold (fun nd th => method_call p2 "finalize" nd [th]) (mk_nodes_from i ds vals) (slots_pv (pre ++ rest)) =
+  Ok (mk_nodes_from i ds (map PV rest), slots_pv (pre ++ rest)).
+Proof.
+  induction ds as [|[[c kd] o] ds IH]; intros i pre rest vals Hc Hp Hr Hv.
+  - destruct rest; [|discriminate]. destruct vals; [|discriminate]. reflexivity.
+  - destruct rest as [|x rest]; [discriminate|]. destruct vals as [|v vals]; [discriminate|].
+    cbn [length] in Hr, Hv. injection Hr as Hr. injection Hv as Hv.
+    inversion Hc as [|? ? Hc1 Hc2]; subst. cbn [fst] in Hc1.
+    cbn [mk_nodes_from node_fold map].
+    rewrite (node_fin_p2 c kd o (length pre) v (pre ++ x :: rest)%list Hc1) by (rewrite app_length; cbn [length]; lia).
+    cbn [bind fst snd]. rewrite nth_app_len.
+    assert (Hl : length (pre ++ [x])%list = S (length pre)) by (rewrite app_length; cbn [length]; lia).
+    pose proof (IH (S (length pre)) (pre ++ [x])%list rest vals Hc2 Hl Hr Hv) as E.
+    rewrite <- !app_assoc in E. cbn [app] in E. rewrite E. reflexivity.
+Qed.
+
+Lemma node_ok_classes : forall aggs ds, Forall2 (node_ok call_ref ctx_of table) aggs ds ->
+  Forall (fun d => (fst (fst d) < 8)%nat) ds.
+Proof.
+  induction 1 as [|a d aggs ds [Hc _] _ IH]; constructor; [|exact IH]. apply (agg_class_lt _ _ Hc).
+Qed.
+
+(* (5, linked) the whole translated aggregated branch, run with the TRANSLATED Allocator and protocol methods *)
+Theorem agg_branch_linked : forall (g : list nat) (ds : list (nat * nat * pv)) (aggs_of : nat -> list pv)
+    (tks : list nat) (cw qobj : pv) (acc : list row) (vals0 : list pv),
+  Forall2 (node_ok call_ref ctx_of table) (q_aggs q) ds -> homogeneous q table -> length vals0 = length ds ->
+  Forall (gca_ok call_ref aggs_of) tks -> snd (split_from g aggs_of 0 tks) = raw_nodes ds vals0 ->
+  qobj <> PSelf -> p2 "attr:table" [qobj] = Ok (PList (map ctx_of table)) ->
+  p2 "attr:having_index" [qobj] = Ok (having_pv q) ->
+  where_ok call_ref ctx_of q table (mk_nodes_from 0 ds) cw ->
+  gtargets_ok_from call_ref ctx_of g table (mk_nodes_from 0 ds) 0 tks (q_targets q) ->
+  (table <> [] -> targets_ok_from call_ref q g (last table []) (ctx_of (last table [])) (mk_nodes_from 0 ds) 0 tks (q_targets q)) ->
+  (forall ks, In ks (scan_agg q g [] table) ->
+     no_err (out_values g (last table []) (snd ks) 0 (q_targets q) (fst ks))) ->
+  having_bound q ->
+  exists s',
+    exec_block call_ref p2
+      {| locals := [("c_target_exprs", PList (map PRef tks)); ("group_indexes", PList (map idx g)); ("query", qobj);
+                    ("c_where", cw); ("rows", PList (map slots_pv acc))]; fields := [] |}
+      (f_body agg_branch) = Ok (Next s') /\
+    lookup "rows" (locals s') =
+      Some (PList (map slots_pv (acc ++ finalize q g (last table []) (scan_agg q g [] table)))).
+Proof.
+  intros g ds aggs_of tks cw qobj acc vals0 Hds Hh Hv0 Hg Hraw Hq Htab Hhav Hw Hgt Hts Hsafe Hhb.
+  pose proof (node_ok_classes _ _ Hds) as Hcl.
+  assert (Hn : length ds = length (q_aggs q)) by (symmetry; apply (Forall2_len _ _ _ Hds)).
+  apply (agg_branch_src call_ref p2 ctx_of q g table (mk_nodes_from 0 ds)
+           (alloc_pv (PInt (Z.of_nat (length (q_aggs q))))) (good q table) aggs_of (raw_nodes ds vals0)
+           (alloc_pv (PInt 0)) vals0); try assumption.
+  - apply p2_lo.
+  - apply alloc_create_store_src.
+  - intros vals Hv.
+    destruct (init_fold call_ref ctx_of table (q_aggs q) ds Hds 0%nat [] (repeat VNull (length (q_aggs q))) vals eq_refl
+                (repeat_length _ _) Hv) as [vals' [Hv' E]].
+    exists vals'. split; [exact Hv'|exact E].
+  - intros vals r sl Hv Hr Hgd. apply (upd_fold call_ref ctx_of table r Hr (q_aggs q) ds Hds 0%nat [] sl vals eq_refl Hv Hgd).
+  - apply good_init.
+  - apply good_upd. exact Hh.
+  - intros vals sl Hv Hsl. apply (fin_fold ds 0%nat [] sl vals Hcl eq_refl); congruence.
+  - apply new_allocator.
+  - rewrite <- Hn. apply (alloc_fold ds vals0 0%nat Hcl Hv0).
+  - congruence.
+Qed.
+
+(* with C02_partition_fold: what the translated branch leaves in `rows` is Exec.exec_rows on the aggregate path *)
+Corollary agg_branch_exec_rows : forall (g : list nat) (ds : list (nat * nat * pv)) (aggs_of : nat -> list pv)
+    (tks : list nat) (cw qobj : pv) (vals0 : list pv),
+  q_group q = Some g ->
+  Forall2 (node_ok call_ref ctx_of table) (q_aggs q) ds -> homogeneous q table -> length vals0 = length ds ->
+  Forall (gca_ok call_ref aggs_of) tks -> snd (split_from g aggs_of 0 tks) = raw_nodes ds vals0 ->
+  qobj <> PSelf -> p2 "attr:table" [qobj] = Ok (PList (map ctx_of table)) ->
+  p2 "attr:having_index" [qobj] = Ok (having_pv q) ->
+  where_ok call_ref ctx_of q table (mk_nodes_from 0 ds) cw ->
+  gtargets_ok_from call_ref ctx_of g table (mk_nodes_from 0 ds) 0 tks (q_targets q) ->
+  (table <> [] -> targets_ok_from call_ref q g (last table []) (ctx_of (last table [])) (mk_nodes_from 0 ds) 0 tks (q_targets q)) ->
+  (forall ks, In ks (scan_agg q g [] table) ->
+     no_err (out_values g (last table []) (snd ks) 0 (q_targets q) (fst ks))) ->
+  having_bound q ->
+  exists s',
+    exec_block call_ref p2
+      {| locals := [("c_target_exprs", PList (map PRef tks)); ("group_indexes", PList (map idx g)); ("query", qobj);
+                    ("c_where", cw); ("rows", PList [])]; fields := [] |}
+      (f_body agg_branch) = Ok (Next s') /\
+    lookup "rows" (locals s') = Some (PList (map slots_pv (exec_rows q table))).
+Proof.
+  intros g ds aggs_of tks cw qobj vals0 Hgq Hds Hh Hv0 Hg Hraw Hq Htab Hhav Hw Hgt Hts Hsafe Hhb.
+  unfold exec_rows. rewrite Hgq.
+  apply (agg_branch_linked g ds aggs_of tks cw qobj [] vals0); assumption.
+Qed.
+
+(* (4, linked) the output part run with the translated finalize *)
+Theorem agg_output_linked : forall (g : list nat) (ctx : row) (cv : pv) (ds : list (nat * nat * pv)) (tks : list nat)
+    qobj (s : store) (acc : list row) vals,
+  Forall (fun d => (fst (fst d) < 8)%nat) ds -> length ds = length (q_aggs q) ->
+  Forall (entry_ok q g ctx) s ->
+  (s <> [] -> targets_ok_from call_ref q g ctx cv (mk_nodes_from 0 ds) 0 tks (q_targets q)) ->
+  qobj <> PSelf -> p2 "attr:having_index" [qobj] = Ok (having_pv q) -> length vals = length (q_aggs q) ->
+  exists s',
+    exec_block call_ref p2
+      {| locals := [("aggregates", dict_pv s); ("c_aggregate_exprs", PList (mk_nodes_from 0 ds vals));
+                    ("c_target_exprs", PList (map PRef tks)); ("group_indexes", PList (map idx g)); ("context", cv);
+                    ("query", qobj); ("rows", PList (map slots_pv acc))]; fields := [] |}
+      (f_body agg_output) = Ok (Next s') /\
+    lookup "rows" (locals s') = Some (PList (map slots_pv (acc ++ finalize q g ctx s))).
+Proof.
+  intros g ctx cv ds tks qobj s acc vals Hcl Hn Hs Hts Hq Hh Hv.
+  apply (agg_output_src call_ref p2 q g ctx cv (mk_nodes_from 0 ds)); try assumption.
+  - apply p2_lo.
+  - intros vals1 sl Hv1 Hsl. apply (fin_fold ds 0%nat [] sl vals1 Hcl eq_refl); congruence.
+Qed.
+
+(* (2, linked) the split of the targets and the allocate loop: handle = position *)
+Theorem agg_split_linked : forall (g : list nat) (aggs_of : nat -> list pv) (tks : list nat),
+  Forall (gca_ok call_ref aggs_of) tks ->
+  exists s',
+    exec_block call_ref p2
+      {| locals := [("c_target_exprs", PList (map PRef tks)); ("group_indexes", PList (map idx g))]; fields := [] |}
+      (f_body agg_split) = Ok (Next s') /\
+    lookup "c_nonaggregate_exprs" (locals s') = Some (PList (map PRef (fst (split_from g aggs_of 0 tks)))) /\
+    lookup "c_aggregate_exprs" (locals s') = Some (PList (snd (split_from g aggs_of 0 tks))).
+Proof.
+  intros g aggs_of tks Hg.
+  destruct (agg_split_gen call_ref p2 g aggs_of (p2_lo call_ref) tks
+              [("c_target_exprs", PList (map PRef tks)); ("group_indexes", PList (map idx g))] [] Hg eq_refl eq_refl)
+    as [loc' [E [R1 [R2 _]]]].
+  eexists. split; [exact E|]. split; assumption.
+Qed.
+
+Theorem agg_alloc_linked : forall (ds : list (nat * nat * pv)) (vals : list pv),
+  Forall (fun d => (fst (fst d) < 8)%nat) ds -> length vals = length ds ->
+  exists s',
+    exec_block call_ref p2 {| locals := [("c_aggregate_exprs", PList (raw_nodes ds vals))]; fields := [] |}
+      (f_body agg_alloc) = Ok (Next s') /\
+    lookup "allocator" (locals s') = Some (alloc_pv (PInt (Z.of_nat (length ds)))) /\
+    lookup "c_aggregate_exprs" (locals s') = Some (PList (mk_nodes_from 0 ds vals)).
+Proof.
+  intros ds vals Hcl Hv.
+  destruct (agg_alloc_gen call_ref p2 (raw_nodes ds vals) (mk_nodes_from 0 ds vals) (alloc_pv (PInt 0))
+              (alloc_pv (PInt (Z.of_nat (length ds)))) [("c_aggregate_exprs", PList (raw_nodes ds vals))] []
+              (new_allocator call_ref) (alloc_fold ds vals 0%nat Hcl Hv) eq_refl) as [loc' [E [R1 [R2 _]]]].
+  eexists. split; [exact E|]. split; assumption.
+Qed.
+End Link2.
